@@ -30,6 +30,10 @@ package tengo
 //@ fieldinv String.Value strlimit{C06}: len(v) <= MaxStringLen
 //@ fieldinv Bytes.Value byteslimit{C06}: len(v) <= MaxBytesLen
 
+// shared constants are read-only while clones run concurrently (C08): the
+// lazily filled rune cache of String is written by IndexGet and Iterate
+//@ fieldinv String.runeStr nowrite_shared_cache{C08}: false
+
 // ---------------------------------------------------------------------------
 // external functions (assumed contracts)
 // ---------------------------------------------------------------------------
@@ -59,6 +63,15 @@ package tengo
 //@ func extern sync/atomic.StoreInt64
 //@   assigns *a0
 //@   ensures *a0 == a1
+//@ func extern fmt.Sprintf
+//@   assigns nothing
+//@ func extern fmt.Errorf
+//@   assigns nothing
+//@   ensures result != nil && fresh(result)
+//@ func extern strings.Join
+//@   assigns nothing
+//@ func extern bytes.Equal
+//@   assigns nothing
 //@ func extern math.IsNaN
 //@   pure
 //@   ensures result == spec.isnan(a0)
@@ -118,8 +131,8 @@ package tengo
 //@   ensures scalar{C10}: spec.scalar(old(view(self))) ==> spec.eqv(view(result), old(view(self)))
 
 //@ func interface Object.IndexGet
-//@   props C08 C09
-//@   assigns nothing
+//@   props C09
+//@   assigns self.(*String).runeStr
 
 //@ func interface Object.CanIterate
 //@   props C08 C09
